@@ -28,6 +28,14 @@ MANUAL = [
     (r"lib/src/adf\.rs:(906|907):", ("gap-closed", "C05.T-acconflict (added)")),
     (r"lib/src/adfbiodivine\.rs:374:", ("equivalent", "AdfOperations::cmp_information between two biodivine diagrams has no caller")),
     (r"lib/src/obdd\.rs:228:BOT->TOP", ("equivalent", "terminal nodes satisfy the first disjunct already")),
+    (r"lib/src/adf/heuristics\.rs:\d+:true->false", ("equivalent", "memoisation flag of Bdd::paths")),
+    (r"lib/src/datatypes/adf\.rs:159:", ("equivalent", "a decided-false entry maps to BOT on either branch")),
+    (r"lib/src/nogoods\.rs:120:min->max", ("equivalent", "the set has exactly one element on this path (len == 1 tested before)")),
+    (r"lib/src/nogoods\.rs:214:", ("gap-closed", "empty nogood must be ignored without touching the store: C18.T-subsume empty-nogood-ignored (added)")),
+    (r"lib/src/nogoods\.rs:(222|231):le->lt", ("equivalent", "Subsume mode, equal-size bucket: an identical nogood is stored twice, the excluded set is unchanged")),
+    (r"lib/src/nogoods\.rs:275:le->lt", ("equivalent", "fewer conclusions drawn; the property demands soundness of conclusions and conflict when the interpretation matches a nogood, both unchanged")),
+    (r"lib/src/nogoods\.rs:288:", ("equivalent", "initial value of the update flag of conclusion_closure: overwritten before it is read")),
+    (r"lib/src/nogoods\.rs:63:", ("equivalent", "try_from_pair_iter: flag initial value; an empty pair iterator cannot occur behind filter_map(conclude) of a non-empty bucket (oracle passes)")),
 ]
 
 
